@@ -65,6 +65,10 @@ FIXED += [
     ("D20", ["C10"], "fix: ctree delete is atomic with respect to updates through retained leaf handles", "conditional-delete-not-atomic-vs-handle-update",
      "DeleteConditional(even) over x=1,y=3,z=5 with handle updates x:=102 then z:=106 landing between its inspections removed z but left x=102: no sequential order explains it"),
 ]
+FIXED += [
+    ("D21", ["C18"], "fix: reconnecting client starts no attempt once it is closed or its context is done", "attempt-after-close",
+     "Close before Subscribe, then Subscribe over a transport that does not watch its context: one full attempt ran and its whole stream was delivered after Close had returned"),
+]
 OPEN = [
     dict(id="D15", properties=["C19"], status="open", **{"class": "query-elem-edge-slash"}, part="query",
          what="a client query whose last element ends with '/' loses that element on the way to the server (e.g. [\"/\"] is indexed as []): ygot's string path parser drops the last part of a string ending in '/', even the escaped one pathToString produces; no small safe repair (the string round trip is what parses [k=v] keys)",
